@@ -29,6 +29,9 @@ type ctx struct {
 	seen map[string]bool
 	// accounting requests acknowledged with SUCCESS, for the content-based sink ledger
 	acctOK []model.AcctRequest
+	// reference scenarios: the document and scope the connection under judgement is bound to
+	curDoc   *model.Doc
+	curScope string
 }
 
 func (c *ctx) v(class, format string, args ...interface{}) {
